@@ -24,6 +24,7 @@ var c04Names = [][]string{
 	{"É", "É1", "Añ", "Añ2", "日本", "日本1", "x"},
 	{"X_1", "X_", "X", "X1", "X_11", "Y_", "Y"},
 	{"on", "onA", "call", "callonA1", "A", "A1", "Parse2"},
+	{"key", "Key", "kEy", "KEY", "value", "Value", "é"},
 }
 
 func renameRules(g *gast.Grammar, names []string) {
